@@ -51,13 +51,33 @@ func (t *LexTables) Step(s int, r rune) int {
 }
 
 var (
-	reCaseEq  = regexp.MustCompile(`^case r == (-?\d+):`)
-	reCaseRng = regexp.MustCompile(`^case (-?\d+) <= r && r <= (-?\d+):`)
+	// a bound is any Go integer or rune literal (the generator writes decimals today; another spelling of the same
+	// number is the same table)
+	reCaseEq  = regexp.MustCompile(`^case r == (` + goNum + `):`)
+	reCaseRng = regexp.MustCompile(`^case (` + goNum + `) <= r && r <= (` + goNum + `):`)
 	reReturn  = regexp.MustCompile(`^return (-?\d+|NoState)$`)
 	reState   = regexp.MustCompile(`^// S(\d+)$`)
 )
 
+const goNum = `-?\d+|-?0[xX][0-9a-fA-F_]+|'(?:[^'\\\n]|\\[^\n]+?)'`
+
 func atoi(s string) int { n, _ := strconv.Atoi(s); return n }
+
+// goRune evaluates an integer or rune literal as the Go compiler would (ok=false if it is not one).
+func goRune(s string) (rune, bool) {
+	if strings.HasPrefix(s, "'") {
+		v, _, tail, err := strconv.UnquoteChar(s[1:], '\'')
+		if err != nil || tail != "'" {
+			return 0, false
+		}
+		return v, true
+	}
+	n, err := strconv.ParseInt(strings.ReplaceAll(s, "_", ""), 0, 64)
+	if err != nil || n < -1<<31 || n > 1<<31-1 {
+		return 0, false
+	}
+	return rune(n), true
+}
 
 // ReadLexTables parses the emitted lexer tables below dir (the -o directory).
 func ReadLexTables(dir string) (*LexTables, error) {
@@ -110,7 +130,10 @@ func ReadLexTables(dir string) (*LexTables, error) {
 			if err != nil {
 				return nil, err
 			}
-			v := rune(atoi(m[1]))
+			v, ok := goRune(m[1])
+			if !ok {
+				return nil, fmt.Errorf("transitiontable.go: line %d: cannot evaluate %s", i+1, m[1])
+			}
 			t.States[cur].Cases = append(t.States[cur].Cases, LexCase{v, v, n})
 		case reCaseRng.MatchString(ln):
 			m := reCaseRng.FindStringSubmatch(ln)
@@ -118,7 +141,12 @@ func ReadLexTables(dir string) (*LexTables, error) {
 			if err != nil {
 				return nil, err
 			}
-			t.States[cur].Cases = append(t.States[cur].Cases, LexCase{rune(atoi(m[1])), rune(atoi(m[2])), n})
+			lo, ok1 := goRune(m[1])
+			hi, ok2 := goRune(m[2])
+			if !ok1 || !ok2 {
+				return nil, fmt.Errorf("transitiontable.go: line %d: cannot evaluate %s or %s", i+1, m[1], m[2])
+			}
+			t.States[cur].Cases = append(t.States[cur].Cases, LexCase{lo, hi, n})
 		case strings.HasPrefix(ln, "case "):
 			t.States[cur].Other = append(t.States[cur].Other, ln)
 		case ln == "default:":
